@@ -5,8 +5,11 @@ walked and the PortGraph invariant asserted, plus the operation's own postcondit
 enumeration of operation sequences over a 3-unit / 5-stream universe and seeded random histories over larger ones.
 """
 import itertools, warnings
+import numpy as np
 import thermosteam as tmo
-from thermosteam.network import AbstractStream, AbstractMissingStream, AbstractUnit
+from thermosteam import network as _net
+from thermosteam.network import (AbstractStream, AbstractMissingStream, AbstractUnit, StreamPorts, InletPort, OutletPort,
+                                 temporary_connection, TemporaryUnit)
 from vt.core import case_hash
 
 PID = 'C18'
@@ -14,16 +17,48 @@ RULE = ('(1) bounded exhaustive: every sequence of enabled concrete operations (
         'up to depth 2 (quick) / 3 (thorough, sharded) over the universe {A: 2->1 fixed, B: 1->2 variable outs, C: 2->2 variable ins} with five streams; '
         '(2) random histories of <=50 operations over 3-8 units with mixed fixed/variable port counts incl. construction with ins/outs, slices, extend, replace, pipes, '
         'unit.disconnect/insert/take_place_of/replace_with, Connection.reconnect, placeholders. non-trivial = at least one real stream docked at two units during the history and '
-        '>=2 effective operations; distinct = hash of the operation sequence')
+        '>=2 effective operations; distinct = hash of the operation sequence. '
+        'Added: both pipe spellings (s-i-u, (s**i)**u, u**i**s, u-(i-s), mixed), bare s-u / u-s, list and ndarray operands, unit**unit, operands read with u-i / i-u; '
+        'placeholder objects (also of another unit) as operands of set/slice/replace/append/insert/extend/streams-unit/ports/construct(single); negative indices and slice bounds, stepped slices; '
+        'unit.insert with inlet/outlet given as stream objects / only one of them / a foreign stream (documented ValueError = refusal); unit.disconnect with partial lists, join_ends on partial lists, '
+        'inlets without outlets; construction forms (single, str, list of str, ins=() auto-create, mixed tuple, None in a fixed list, more streams than N on a variable list, too many on a fixed list = refusal); '
+        'StreamPorts.from_inlets/from_outlets item and slice assignment and In/OutletPort.set_stream; StreamSequence.reverse; temporary_connection (temporary units are part of the checked graph); '
+        'every real stream ever seen in a port stays under observation after it is evicted; the exhaustive alphabet also holds slice/replace/extend/pipe/streams-unit/insert at i>0/set at i==len/'
+        'negative index/partial disconnect/explicit insert/construct/ports/temp-conn/reverse shapes over a 2-stream + 2-port-reference sub-universe')
 MIN_NONTRIVIAL = {'quick': 1000, 'thorough': 100000}
 ASSUMPTIONS = ['operations are used within the preconditions listed in the property (checked by the harness on the live state before each call)',
-               'AbstractUnit subclasses with no _run are sufficient: only the connection graph is exercised']
+               'AbstractUnit subclasses with no _run are sufficient: only the connection graph is exercised',
+               'pipe operators are written with the grouping Python needs to reach the pipe objects: (s**i)**u and u-(i-s) (s**i**u / u-i-s parse as index reads followed by stream**stream)',
+               'a placeholder object has no pipe operators: `placeholder - unit` is answered by the documented ValueError (counted as a refusal), `unit - placeholder` and placeholders inside '
+               'construction lists are not generated; `ndarray - unit` is applied by numpy element by element (each element replaces the inlet list), so only the graph invariant is judged there',
+               'calls answered by a documented error (ValueError of unit.insert / unit.disconnect(join_ends) / StreamPorts.from_*, IndexError of a StreamPorts slice of another length, RuntimeError '
+               'of a construction with more streams than a fixed list holds) are counted as refusals; the graph they leave is not judged',
+               'temporary_connection is called on units whose first outlet / first inlet hold real streams (its use in process specifications)']
 
 
 def required(tier):
     return ['op:set', 'op:set-move', 'op:slice', 'op:append', 'op:insert', 'op:extend', 'op:pop', 'op:remove', 'op:replace', 'op:clear', 'op:empty',
             'op:disconnect_source', 'op:disconnect_sink', 'op:unit.disconnect', 'op:unit.disconnect-join', 'op:unit.insert', 'op:take_place_of', 'op:replace_with',
-            'op:reconnect', 'op:pipe-in', 'op:pipe-out', 'op:unit-unit', 'op:streams-unit', 'op:construct', 'op:placeholder', 'exhaustive']
+            'op:reconnect', 'op:pipe-in', 'op:pipe-out', 'op:unit-unit', 'op:streams-unit', 'op:construct', 'op:placeholder', 'exhaustive',
+            # pipe spellings and operand kinds
+            'pipe-in:s-i-u', 'pipe-in:(s**i)**u', 'pipe-in:mixed', 'pipe-out:u**i**s', 'pipe-out:u-(i-s)', 'pipe-out:mixed', 'pipe:operand-by-index-read',
+            'streams-unit:bare/in', 'streams-unit:bare/out', 'streams-unit:list/in', 'streams-unit:list/out', 'streams-unit:ndarray/in', 'streams-unit:ndarray/out', 'unit-unit:pow',
+            # placeholder objects as operands
+            'op:placeholder-operand', 'op:placeholder-operand/set', 'op:placeholder-operand/slice', 'op:placeholder-operand/replace', 'op:placeholder-operand/append',
+            'op:placeholder-operand/insert', 'op:placeholder-operand/of-another-unit',
+            # evicted streams stay observed
+            'ever-seen:auto-created-stream-evicted',
+            # exhaustive alphabet
+            'exh:slice', 'exh:replace', 'exh:extend', 'exh:pipe-in', 'exh:pipe-out', 'exh:insert-at-i>0', 'exh:set-at-len', 'exh:unit.disconnect-partial', 'exh:unit.insert-explicit',
+            'exh:streams-unit', 'exh:port-ref-operand', 'exh:construct', 'exh:temp-conn',
+            # negative indices, insert/disconnect call forms
+            'neg-index:set', 'neg-index:pop', 'neg-index:insert', 'neg-index:slice', 'slice:step',
+            'unit.insert:stream-objects', 'unit.insert:inlet-only', 'unit.insert:outlet-only', 'unit.insert:foreign-refused',
+            'unit.disconnect:partial-join', 'unit.disconnect:inlets-only', 'unit.disconnect:outlets-only',
+            # construction forms
+            'construct:single', 'construct:str', 'construct:strs', 'construct:auto', 'construct:mixed', 'construct:over-variable', 'construct:none-in-fixed',
+            # system ports, temporary connection
+            'op:ports', 'ports:item', 'ports:slice', 'ports:set_stream', 'op:temp-conn', 'temp-conn:units-checked']
 
 
 _classes = {}
@@ -49,6 +84,15 @@ class Universe:
             self.streams.append(s)
         self.connections = []
         self.seen_double = False
+        self.temps = []            # TemporarySource / TemporarySink units made by temporary_connection: part of the checked graph
+        self.ever = []             # every real stream ever observed in a port (and the universe streams), in order of first observation
+        self._ever_ids = set()
+        self.evicted_auto = False  # an observed stream that is not one of the universe streams is no longer in any port
+        for s in self.streams: self.remember(s)
+
+    def remember(self, s):
+        if id(s) not in self._ever_ids:
+            self._ever_ids.add(id(s)); self.ever.append(s)      # kept alive here, so id() stays unique
 
     def seq(self, u, side):
         unit = self.units[u]
@@ -65,39 +109,62 @@ class Universe:
             return seq[ref[3]] if ref[3] < len(seq) else None
         raise ValueError(ref)
 
+    def read_by_pipe(self, ref):
+        """the operand of a port reference read with the pipe index notation: unit - j (outlet j) / j - unit (inlet j)."""
+        unit = self.units[ref[1]]
+        return (unit - ref[3]) if ref[2] == 'out' else (ref[3] - unit)
+
 
 def is_real(s): return isinstance(s, AbstractStream)
+
+
+def is_ph(s): return isinstance(s, AbstractMissingStream)
+
+
+def nm(x):
+    return getattr(x, 'ID', None) or '<unnamed>'
 
 
 def check(U):
     """PortGraph invariant over the whole universe; returns list of error strings."""
     errs = []
-    everything = set(U.streams)
-    for u in U.units:
+    units = list(U.units) + list(getattr(U, 'temps', ()))
+    found = []
+    for u in units:
         for side, seq, attr, other in (('ins', u.ins, '_sink', '_source'), ('outs', u.outs, '_source', '_sink')):
             items = list(seq)
             real = [s for s in items if is_real(s)]
-            everything |= set(real)
+            found.extend(real)
             if len(set(map(id, real))) != len(real): errs.append(f'{u.ID}.{side} lists a stream twice')
             for s in real:
-                if getattr(s, attr) is not u: errs.append(f'{u.ID}.{side} lists {s.ID} but its {attr[1:]} is {getattr(getattr(s, attr), "ID", None)}')
+                if getattr(s, attr) is not u: errs.append(f'{u.ID}.{side} lists {nm(s)} but its {attr[1:]} is {getattr(getattr(s, attr), "ID", None)}')
             if seq._fixed_size and len(items) != seq._size: errs.append(f'{u.ID}.{side} fixed size {seq._size} but holds {len(items)}')
             for s in items:
                 if not is_real(s):
                     if not isinstance(s, AbstractMissingStream): errs.append(f'{u.ID}.{side} holds a {type(s).__name__}')
                     elif bool(s): errs.append(f'{u.ID}.{side} placeholder is truthy')
                     elif getattr(s, attr) is not u: errs.append(f'{u.ID}.{side} placeholder points at {getattr(getattr(s, attr), "ID", None)}')
+    if hasattr(U, 'remember'):
+        # streams once seen in a port (auto-created outlets, streams made from IDs, streams of temporary connections) stay observed after eviction
+        for s in found: U.remember(s)
+        everything = U.ever
+        in_port = set(map(id, found))
+        if not U.evicted_auto and len(U.ever) > len(U.streams) and any(id(s) not in in_port for s in U.ever[len(U.streams):]): U.evicted_auto = True
+    else:
+        everything = []; seen_ids = set()
+        for s in list(U.streams) + found:
+            if id(s) not in seen_ids: seen_ids.add(id(s)); everything.append(s)
     for s in everything:
-        if s._sink is not None and not any(x is s for x in s._sink.ins): errs.append(f'{s.ID} has sink {s._sink.ID} but is not among its inlets')
-        if s._source is not None and not any(x is s for x in s._source.outs): errs.append(f'{s.ID} has source {s._source.ID} but is not among its outlets')
+        if s._sink is not None and not any(x is s for x in s._sink.ins): errs.append(f'{nm(s)} has sink {s._sink.ID} but is not among its inlets')
+        if s._source is not None and not any(x is s for x in s._source.outs): errs.append(f'{nm(s)} has source {s._source.ID} but is not among its outlets')
         if s._sink is not None and s._source is not None: U.seen_double = True
     # no real stream at two ports of the same side
     for attr, side in (('_sink', 'ins'), ('_source', 'outs')):
         seen = {}
-        for u in U.units:
+        for u in units:
             for s in getattr(u, side):
                 if is_real(s):
-                    if id(s) in seen and seen[id(s)] is not u: errs.append(f'{s.ID} occupies {side} ports of {seen[id(s)].ID} and {u.ID}')
+                    if id(s) in seen and seen[id(s)] is not u: errs.append(f'{nm(s)} occupies {side} ports of {seen[id(s)].ID} and {u.ID}')
                     seen[id(s)] = u
     return errs
 
@@ -108,53 +175,205 @@ def docked(s, side):
     return getattr(s, '_sink' if side == 'in' else '_source') is not None
 
 
+REF_KEYS_1 = ('s', 'foreign_in', 'foreign_out')
+REF_KEYS_N = ('ss', 'ins', 'outs', 'of')
+
+
+class Refused:
+    """the library answered the call with a documented error: counted, not judged."""
+    def __init__(self, reason): self.reason = reason
+
+
 def pre(U, op):
     o = op['op']
     nu = len(U.units)
     if ('u' in op and op['u'] >= nu) or ('v' in op and op['v'] >= nu): return False
-    for k in ('s',):
-        if k in op and op[k] is not None and op[k][0] == 'p' and op[k][1] >= nu: return False
-    for k in ('ss', 'ins', 'outs'):
+    for k in REF_KEYS_1:
+        r = op.get(k)
+        if r is not None and r[0] == 'p' and r[1] >= nu: return False
+    for k in REF_KEYS_N:
         if k in op and any(r is not None and r[0] == 'p' and r[1] >= nu for r in op[k]): return False
     return _pre(U, op)
+
+
+def is_streamlike(s): return is_real(s) or is_ph(s)
+
+
+def in_range(i, n, upto=0):
+    """index i addresses an existing item of a list of length n (negative indices count from the end); upto=1 also allows i == n."""
+    return -n <= i < n + upto
+
+
+def slice_plan(seq, op):
+    """(number of items the slice removes, is extended slice) under Python's list slice semantics, or None when outside the preconditions."""
+    n = len(seq); a, b, st = op['a'], op['b'], op.get('st')
+    if st is None and (a is None or a >= 0) and (b is None or b >= 0):
+        a = 0 if a is None else min(a, n); b = n if b is None else min(b, n)
+        if b < a: return None
+        return b - a, False
+    start, stop, step = slice(a, b, st).indices(n)
+    if step == 1:
+        if stop < start: return None
+        return stop - start, False
+    return len(range(start, stop, step)), True
+
+
+def insert_plan(U, op):
+    """unit.insert(stream, inlet=, outlet=) in its general call form: the objects passed, the ports involved and the documented refusal expected (if any).
+    returns None when the call is outside the preconditions of the assignments it performs."""
+    u = U.units[op['u']]; s = U.resolve(op['s'])
+    if s is None or not is_real(s) or not s.source or not s.sink or s.source is u or s.sink is u: return None
+    src, snk = s.source, s.sink
+    kw = {}; expect = None; X = I = None; added_unit = False
+    # --- outlet
+    if op.get('foreign_out') is not None:
+        X = U.resolve(op['foreign_out'])
+        if X is None or not is_real(X): return None
+        kw['outlet'] = X
+        if X.source is not u: return kw, 'source of given outlet must be this object', None, None, False
+    elif op.get('outlet') is not None:
+        j = op['outlet']
+        if not in_range(j, len(u.outs)): return None
+        X = u.outs[j]
+        kw['outlet'] = X if (op.get('obj_out') and is_real(X)) else j
+    else:
+        if u._outs_size_is_fixed:
+            if u._N_outs != 1: return kw, 'undefined outlet', None, None, False
+            if len(u.outs) < 1: return None
+            X = u.outs[0]
+        else:
+            added_unit = True
+    if X is not None:
+        if any(y is X for y in snk.ins): return None          # assigned to a port of the old sink: must not already be there
+    # --- inlet
+    if op.get('foreign_in') is not None:
+        I = U.resolve(op['foreign_in'])
+        if I is None or not is_real(I): return None
+        kw['inlet'] = I
+        if I.sink is not u: expect = 'sink of given inlet must be this object'
+    elif op.get('inlet') is not None:
+        j = op['inlet']
+        if not in_range(j, len(u.ins)): return None
+        I = u.ins[j]
+        kw['inlet'] = I if (op.get('obj_in') and is_real(I)) else j
+    else:
+        if u._ins_size_is_fixed or added_unit:
+            if u._N_ins != 1: expect = 'undefined inlet'
+            else:
+                if len(u.ins) < 1: return None
+                I = u.ins[0]
+        # else: the stream itself is appended to the (variable) inlets after it was replaced at its old sink -> not docked on that side
+    if expect is None and I is not None:
+        if I is X: return None
+        if any(y is I for y in src.outs): return None         # assigned to a port of the old source: must not already be there
+    return kw, expect, X, I, added_unit
+
+
+def disconnect_plan(U, op):
+    """unit.disconnect(inlets=, outlets=, join_ends=) in its general call form; None when outside the preconditions."""
+    u = U.units[op['u']]
+    sel = {}
+    for key, seq in (('inlets', u.ins), ('outlets', u.outs)):
+        idx = op.get(key)
+        if idx is None: sel[key] = None; continue
+        n = len(seq)
+        if not all(in_range(i, n) for i in idx): return None
+        pos = [i % n for i in idx]
+        if len(set(pos)) != len(pos): return None
+        sel[key] = idx
+    kw = {}; chosen = {}
+    for key, seq in (('inlets', u.ins), ('outlets', u.outs)):
+        idx = sel[key]
+        if idx is None:
+            chosen[key] = [x for x in seq if x]
+            continue
+        if op.get('join') and op.get('as_streams'): idx = [i for i in idx if is_real(seq[i])]       # joining needs the stream objects
+        chosen[key] = [seq[i] for i in idx]
+        kw[key] = [seq[i] if (op.get('as_streams') and is_real(seq[i])) else i for i in idx]
+    expect = None
+    if op.get('join'):
+        kw['join_ends'] = True
+        if len(chosen['inlets']) != len(chosen['outlets']): expect = 'number of inlets must match number of outlets'
+        else:
+            for i, x in zip(chosen['inlets'], chosen['outlets']):
+                if not is_real(x) or not is_real(i): continue
+                if x.sink is u: return None
+                if x.sink and any(y is i for y in x.sink.ins): return None
+            for i in chosen['inlets']:
+                if is_real(i) and any(i is x for x in chosen['outlets']): return None
+    return kw, expect, chosen
+
+
+def build_ports(U, op):
+    streams = [U.resolve(r) for r in op['of']]
+    make = StreamPorts.from_inlets if op['side'] == 'in' else StreamPorts.from_outlets
+    return make(streams, sort=bool(op.get('sort')))
+
+
+def port_target(port, side):
+    return (port.sink.ins, port.index) if side == 'in' else (port.source.outs, port.index)
+
+
+def construct_args(U, op):
+    """the ins / outs arguments of a construction in the requested call form, and the given stream objects that must end up listed."""
+    form = op.get('form') or 'list'
+    tag = op.get('tag', 0)
+    out = []
+    for side, key in (('i', 'ins'), ('o', 'outs')):
+        refs = op[key]; objs = [U.resolve(r) for r in refs]
+        if form == 'single': arg = objs[0] if objs else (None if key == 'ins' else ())
+        elif form == 'str': arg = f'x{tag}{side}'
+        elif form == 'strs': arg = [f'x{tag}{side}{k}' for k in range(len(refs))]
+        elif form == 'auto': arg = ()
+        elif form == 'mixed': arg = tuple(f'x{tag}{side}{k}' if k % 2 else x for k, x in enumerate(objs))
+        else: arg = (objs if objs else None) if key == 'ins' else (objs if objs else ())
+        if form == 'single': given = objs[:1]
+        elif form in ('str', 'strs', 'auto'): given = []
+        elif form == 'mixed': given = [x for k, x in enumerate(objs) if k % 2 == 0]
+        else: given = objs
+        out.append((arg, given))
+    return out
 
 
 def _pre(U, op):
     o = op['op']
     if o == 'set':
         seq = U.seq(op['u'], op['side']); s = U.resolve(op['s'])
+        if op['i'] < 0 and not in_range(op['i'], len(seq)): return False
         if op['i'] > len(seq) or (op['i'] == len(seq) and seq._fixed_size): return False
         if s is not None and any(x is s for x in seq): return False
-        if s is not None and not is_real(s): return False
+        if s is not None and not is_streamlike(s): return False
         return True
     if o == 'slice':
         seq = U.seq(op['u'], op['side']); ss = [U.resolve(r) for r in op['ss']]
         if any(x is not None and any(y is x for y in seq) for x in ss): return False
         real = [x for x in ss if x is not None]
-        if len(set(map(id, real))) != len(real) or not all(is_real(x) for x in real): return False
-        n = len(seq); a, b = op['a'], op['b']
-        a = 0 if a is None else min(a, n); b = n if b is None else min(b, n)
-        if b < a: return False
-        if seq._fixed_size and n - (b - a) + len(ss) > seq._size: return False
+        if len(set(map(id, real))) != len(real) or not all(is_streamlike(x) for x in real): return False
+        plan = slice_plan(seq, op)
+        if plan is None: return False
+        removed, extended = plan
+        if extended and len(ss) != removed: return False      # Python's own rule for extended slices
+        if seq._fixed_size and len(seq) - removed + len(ss) > seq._size: return False
         return True
     if o in ('append', 'insert'):
         seq = U.seq(op['u'], op['side']); s = U.resolve(op['s'])
-        return (not seq._fixed_size) and s is not None and is_real(s) and not docked(s, op['side']) and (o == 'append' or op['i'] <= len(seq))
+        return (not seq._fixed_size) and s is not None and is_streamlike(s) and not docked(s, op['side']) and (o == 'append' or in_range(op['i'], len(seq), 1))
     if o == 'extend':
         seq = U.seq(op['u'], op['side']); ss = [U.resolve(r) for r in op['ss']]
-        return (not seq._fixed_size) and all(s is not None and is_real(s) and not docked(s, op['side']) for s in ss) and len(set(map(id, ss))) == len(ss)
+        return (not seq._fixed_size) and all(s is not None and is_streamlike(s) and not docked(s, op['side']) for s in ss) and len(set(map(id, ss))) == len(ss)
     if o == 'pop':
-        return op['i'] < len(U.seq(op['u'], op['side']))
+        return in_range(op['i'], len(U.seq(op['u'], op['side'])))
     if o == 'remove':
-        seq = U.seq(op['u'], op['side']); return op['i'] < len(seq)
+        seq = U.seq(op['u'], op['side']); return in_range(op['i'], len(seq))
     if o == 'replace':
         seq = U.seq(op['u'], op['side']); s = U.resolve(op['s'])
-        return op['i'] < len(seq) and s is not None and is_real(s) and not any(x is s for x in seq)
-    if o in ('clear', 'empty'): return True
+        return in_range(op['i'], len(seq)) and s is not None and is_streamlike(s) and not any(x is s for x in seq)
+    if o in ('clear', 'empty', 'reverse'): return True
     if o in ('disconnect_source', 'disconnect_sink', 'disconnect'):
         return U.resolve(op['s']) is not None
     if o == 'unit.disconnect':
         u = U.units[op['u']]
+        if op.get('mode') == 'v2': return disconnect_plan(U, op) is not None
         if op.get('join'):
             ins = [i for i in u.ins if i]; outs = [x for x in u.outs if x]
             if len(ins) != len(outs): return False
@@ -165,6 +384,7 @@ def _pre(U, op):
         return True
     if o == 'unit.insert':
         u = U.units[op['u']]; s = U.resolve(op['s'])
+        if op.get('mode') == 'v2': return insert_plan(U, op) is not None
         if s is None or not is_real(s) or not s.source or not s.sink or s.source is u or s.sink is u: return False
         if op.get('explicit'):
             if op['inlet'] >= len(u.ins) or op['outlet'] >= len(u.outs): return False
@@ -218,7 +438,8 @@ def _pre(U, op):
     if o == 'pipe-in' or o == 'pipe-out':
         side = 'in' if o == 'pipe-in' else 'out'
         seq = U.seq(op['u'], side); s = U.resolve(op['s'])
-        if s is None or not is_real(s) or any(x is s for x in seq): return False
+        if s is None or not is_real(s) or any(x is s for x in seq): return False      # a placeholder has no pipe operators
+        if op['i'] < 0: return in_range(op['i'], len(seq))
         return op['i'] < len(seq) or (op['i'] == len(seq) and not seq._fixed_size)
     if o == 'unit-unit':
         a, b = U.units[op['u']], U.units[op['v']]
@@ -228,26 +449,65 @@ def _pre(U, op):
     if o == 'streams-unit':
         u = U.units[op['u']]; ss = [U.resolve(r) for r in op['ss']]
         side = op['side']; seq = U.seq(op['u'], side)
-        if any(s is None or not is_real(s) for s in ss) or len(set(map(id, ss))) != len(ss): return False
+        form = op.get('form')
+        if any(s is None or not is_streamlike(s) for s in ss) or len(set(map(id, ss))) != len(ss): return False
+        if form is None and not all(is_real(s) for s in ss): return False
+        if form == 'bare':
+            if len(ss) != 1: return False
+            if is_ph(ss[0]) and side == 'out': return False       # unit - <placeholder> is not a pipe form (the placeholder has no reflected operator)
+        if form == 'ndarray' and side == 'in' and not all(is_real(s) for s in ss): return False     # numpy applies the bare form element by element
         if seq._fixed_size and len(ss) > seq._size: return False
         return not any(any(y is x for y in seq) for x in ss)
     if o == 'construct':
         ins = [U.resolve(r) for r in op['ins']]; outs = [U.resolve(r) for r in op['outs']]
         nin, nout, fin, fout = op['cfg']
+        form = op.get('form') or 'list'
         real = [x for x in ins + outs if x is not None]
+        if form == 'single':
+            if not all(is_streamlike(x) for x in ins[:1] + outs[:1]) or any(x is None for x in ins[:1] + outs[:1]): return False
+            return True
         if not all(is_real(x) for x in real): return False
         if len(set(map(id, [x for x in ins if x is not None]))) != len([x for x in ins if x is not None]): return False
         if len(set(map(id, [x for x in outs if x is not None]))) != len([x for x in outs if x is not None]): return False
+        if form in ('str', 'auto'): return True
+        if form == 'over':            # more streams than N: accepted by a variable list, documented RuntimeError for a fixed one
+            return not any(x is None for x in (ins if fin else []) + (outs if fout else []))
         if fin and len(ins) > nin: return False
         if fout and len(outs) > nout: return False
+        if form in ('strs', 'none-fixed'): return True
+        if form == 'mixed': return not any(x is None for x in ins + outs)
         if fin and any(x is None for x in ins): return False      # fixed-size construction takes streams, not None
         if fout and any(x is None for x in outs): return False
         return True
+    if o == 'ports':
+        ss = [U.resolve(r) for r in op['ss']]
+        of = [U.resolve(r) for r in op['of']]
+        if not of or any(x is None or not is_streamlike(x) for x in of) or len(set(map(id, of))) != len(of): return False
+        given = [x for x in ss if x is not None]
+        if not all(is_streamlike(x) for x in given) or len(set(map(id, given))) != len(given): return False
+        if len(given) != len([r for r in op['ss'] if r is not None]): return False
+        try: ports = build_ports(U, op)
+        except ValueError: return True          # a stream that is not docked on that side: documented ValueError, exercised as a refusal
+        P = ports._ports; n = len(P)
+        if op['mode'] == 'slice':
+            sel = P[slice(op['a'], op['b'])]
+            if len(sel) != len(ss): return True  # documented IndexError, exercised as a refusal
+        else:
+            if len(ss) != 1 or not in_range(op['k'], n): return False
+            sel = [P[op['k']]]
+        for port, s in zip(sel, ss):
+            lst, idx = port_target(port, op['side'])
+            if s is not None and any(y is s for y in lst): return False
+        return True
+    if o == 'temp-conn':
+        a, b = U.units[op['u']], U.units[op['v']]
+        if len(a.outs) < 1 or len(b.ins) < 1: return False
+        return is_real(a.outs[0]) and is_real(b.ins[0])
     raise ValueError(o)
 
 
 def execute(U, op):
-    """runs the real operation; returns an operation-specific postcondition error string or None."""
+    """runs the real operation; returns an operation-specific postcondition error string, a Refused object or None."""
     o = op['op']
     if o == 'set':
         seq = U.seq(op['u'], op['side']); s = U.resolve(op['s']); i = op['i']
@@ -259,7 +519,7 @@ def execute(U, op):
         return None
     if o == 'slice':
         seq = U.seq(op['u'], op['side']); ss = [U.resolve(r) for r in op['ss']]
-        seq[slice(op['a'], op['b'])] = ss
+        seq[slice(op['a'], op['b'], op.get('st'))] = ss
         for s in ss:
             if s is not None and not any(x is s for x in seq): return 'slice-assigned stream missing from the list'
         return None
@@ -268,6 +528,7 @@ def execute(U, op):
         return None if seq[len(seq) - 1] is s else 'appended stream is not last'
     if o == 'insert':
         seq = U.seq(op['u'], op['side']); s = U.resolve(op['s']); seq.insert(op['i'], s)
+        if op['i'] < 0: return None if any(x is s for x in seq) else 'inserted stream is not in the list'
         return None if seq[op['i']] is s else 'inserted stream is not at the index'
     if o == 'extend':
         seq = U.seq(op['u'], op['side']); ss = [U.resolve(r) for r in op['ss']]; seq.extend(ss)
@@ -296,12 +557,33 @@ def execute(U, op):
     if o == 'empty':
         seq = U.seq(op['u'], op['side']); seq.empty()
         return 'empty left real streams' if any(is_real(x) for x in seq) else None
+    if o == 'reverse':
+        seq = U.seq(op['u'], op['side'])
+        seq.reverse()
+        return None
     if o in ('disconnect_source', 'disconnect_sink', 'disconnect'):
         s = U.resolve(op['s'])
         getattr(s, o)()
         if is_real(s):
             if o in ('disconnect_source', 'disconnect') and s._source is not None: return 'stream still has a source after disconnect_source'
             if o in ('disconnect_sink', 'disconnect') and s._sink is not None: return 'stream still has a sink after disconnect_sink'
+        return None
+    if o == 'unit.disconnect' and op.get('mode') == 'v2':
+        u = U.units[op['u']]
+        kw, expect, chosen = disconnect_plan(U, op)
+        try:
+            u.disconnect(**kw)
+        except ValueError as e:
+            if expect and expect in str(e): return Refused('unit.disconnect(join_ends=True) with unequal numbers of inlets and outlets: ValueError')
+            raise
+        if op.get('inlets') is not None:
+            for x in chosen['inlets']:
+                if is_real(x) and any(y is x for y in u.ins): return 'unit.disconnect(inlets=...) left a chosen inlet docked'
+        if op.get('outlets') is not None:
+            for x in chosen['outlets']:
+                if is_real(x) and any(y is x for y in u.outs): return 'unit.disconnect(outlets=...) left a chosen outlet docked'
+        if op.get('inlets') is None and any(is_real(x) for x in u.ins): return 'unit.disconnect left real inlets docked'
+        if op.get('outlets') is None and any(is_real(x) for x in u.outs): return 'unit.disconnect left real outlets docked'
         return None
     if o == 'unit.disconnect':
         u = U.units[op['u']]
@@ -320,6 +602,19 @@ def execute(U, op):
             for x in chosen_out:
                 if is_real(x) and any(y is x for y in u.outs): return 'unit.disconnect(outlets=...) left a chosen outlet docked'
         if 'inlets' not in kw and (any(is_real(x) for x in u.ins) or any(is_real(x) for x in u.outs)): return 'unit.disconnect left real streams docked'
+        return None
+    if o == 'unit.insert' and op.get('mode') == 'v2':
+        u = U.units[op['u']]; s = U.resolve(op['s'])
+        src, snk = s.source, s.sink
+        kw, expect, X, I, added = insert_plan(U, op)
+        try:
+            u.insert(s, **kw)
+        except ValueError as e:
+            if expect and expect in str(e): return Refused('unit.insert: ' + expect + ': ValueError')
+            raise
+        if expect: return None
+        if not any(x.source is src for x in u.ins): return 'after insert no inlet of the unit comes from the old source'
+        if not any(x.sink is snk for x in u.outs): return 'after insert no outlet of the unit goes to the old sink'
         return None
     if o == 'unit.insert':
         u = U.units[op['u']]; s = U.resolve(op['s'])
@@ -356,26 +651,66 @@ def execute(U, op):
         if s.source is not c.source or s.sink is not c.sink: return 'reconnect did not restore source/sink'
         return None
     if o == 'pipe-in':
-        u = U.units[op['u']]; s = U.resolve(op['s'])
-        r = s - op['i'] - u
-        return None if (r is u and u.ins[op['i']] is s) else 'inlet pipe did not connect'
+        u = U.units[op['u']]; s = s0 = U.resolve(op['s']); i = op['i']
+        if op.get('idx_read') and op['s'][0] == 'p': s = U.read_by_pipe(op['s'])
+        minus = op.get('minus', True); mix = op.get('mix')
+        if minus and not mix: r = s - i - u
+        elif minus: r = (s - i) ** u
+        elif not mix: r = (s ** i) ** u
+        else: r = (s ** i) - u
+        return None if (r is u and u.ins[op['i']] is s0) else 'inlet pipe did not connect'
     if o == 'pipe-out':
-        u = U.units[op['u']]; s = U.resolve(op['s'])
-        r = u ** op['i'] ** s
-        return None if u.outs[op['i']] is s else 'outlet pipe did not connect'
+        u = U.units[op['u']]; s = s0 = U.resolve(op['s']); i = op['i']
+        if op.get('idx_read') and op['s'][0] == 'p': s = U.read_by_pipe(op['s'])
+        pw = op.get('pow', True); mix = op.get('mix')
+        if pw and not mix: r = u ** i ** s
+        elif pw: r = u - (i ** s)
+        elif not mix: r = u - (i - s)
+        else: r = u ** (i - s)
+        return None if u.outs[op['i']] is s0 else 'outlet pipe did not connect'
     if o == 'unit-unit':
         a, b = U.units[op['u']], U.units[op['v']]
-        a - b
+        if op.get('pow'): a ** b
+        else: a - b
         return None
     if o == 'streams-unit':
         u = U.units[op['u']]; ss = [U.resolve(r) for r in op['ss']]
-        if op['side'] == 'in': tuple(ss) - u
-        else: u - tuple(ss)
+        form = op.get('form')
+        if form == 'bare':
+            try:
+                if op['side'] == 'in': ss[0] - u
+                else: u - ss[0]
+            except ValueError as e:
+                if is_ph(ss[0]) and 'cannot pipe' in str(e): return Refused('streams-unit: <placeholder> - unit: ValueError cannot pipe')
+                raise
+        elif form == 'list':
+            if op['side'] == 'in': list(ss) - u
+            else: u - list(ss)
+        elif form == 'ndarray':
+            arr = np.empty(len(ss), dtype=object); arr[:] = ss
+            if op['side'] == 'in':
+                arr - u          # numpy applies `stream - unit` element by element: each one replaces the whole inlet list, only the graph invariant is judged
+                return None
+            else: u - arr
+        else:
+            if op['side'] == 'in': tuple(ss) - u
+            else: u - tuple(ss)
         return None if all(any(x is s for x in U.seq(op['u'], op['side'])) for s in ss) else 'piped streams missing'
     if o == 'construct':
-        ins = [U.resolve(r) for r in op['ins']]; outs = [U.resolve(r) for r in op['outs']]
         cls = unit_class(*op['cfg'])
-        u = cls(None, ins=ins if ins else None, outs=outs if outs else ())
+        form = op.get('form') or 'list'
+        if form in ('list',):
+            ins = [U.resolve(r) for r in op['ins']]; outs = [U.resolve(r) for r in op['outs']]
+            u = cls(None, ins=ins if ins else None, outs=outs if outs else ())
+        else:
+            (iarg, ins), (oarg, outs) = construct_args(U, op)
+            nin, nout, fin, fout = op['cfg']
+            too_many = (fin and not isinstance(iarg, str) and is_seq(iarg) and len(iarg) > nin) or (fout and not isinstance(oarg, str) and is_seq(oarg) and len(oarg) > nout)
+            try:
+                u = cls(None, ins=iarg, outs=oarg)
+            except RuntimeError as e:
+                if too_many and 'size exceeds' in str(e): return Refused('construct: more streams than a fixed-size list holds: RuntimeError')
+                raise
         u._ID = f'u{len(U.units)}'
         U.units.append(u)
         for s in [x for x in ins if x is not None]:
@@ -383,7 +718,41 @@ def execute(U, op):
         for s in [x for x in outs if x is not None]:
             if not any(y is s for y in u.outs): return 'constructed unit does not list a given outlet'
         return None
+    if o == 'ports':
+        side = op['side']; ss = [U.resolve(r) for r in op['ss']]
+        try:
+            ports = build_ports(U, op)
+        except ValueError as e:
+            if 'to any unit' in str(e): return Refused(f'StreamPorts.from_{side}lets: stream not docked on that side: ValueError')
+            raise
+        if op['mode'] == 'slice':
+            try:
+                ports[op['a']:op['b']] = ss
+            except IndexError as e:
+                if 'must match the size of slice' in str(e): return Refused('StreamPorts slice assignment of another length: IndexError')
+                raise
+            sel = ports._ports[slice(op['a'], op['b'])]
+        else:
+            port = ports._ports[op['k']]
+            if op['mode'] == 'direct': port.set_stream(ss[0], 2)
+            else: ports[op['k']] = ss[0]
+            sel = [port]
+        for port, s in zip(sel, ss):
+            if s is not None and port.get_stream() is not s: return 'stream assigned through a port is not at that port'
+            if s is None and bool(port.get_stream()): return 'assigning None through a port did not leave a placeholder'
+        return None
+    if o == 'temp-conn':
+        a, b = U.units[op['u']], U.units[op['v']]
+        n0 = len(_net.temporary_units_dump)
+        temporary_connection(a, b)
+        for tu in _net.temporary_units_dump[n0:]:
+            tu.ID = tu._ID = f'TU{len(U.temps)}'      # the library numbers them with a process-wide counter: renamed so that a case replays alike in isolation
+            U.temps.append(tu)
+        return None
     raise ValueError(o)
+
+
+def is_seq(x): return isinstance(x, (list, tuple))
 
 
 def mech(op):
@@ -393,6 +762,86 @@ def mech(op):
     return o
 
 
+def operand_refs(op):
+    refs = [op.get(k) for k in REF_KEYS_1 if op.get(k) is not None]
+    for k in ('ss', 'of'):
+        refs += [r for r in op.get(k, ()) if r is not None]
+    if op['op'] == 'construct' and (op.get('form') or 'list') in ('list', 'single', 'mixed', 'over', 'none-fixed'):
+        refs += [r for r in op['ins'] + op['outs'] if r is not None]
+    return refs
+
+
+def describe(U, op):
+    """(key variant suffix, reach counters) of the call form the operation takes on the live state; evaluated before the call."""
+    o = op['op']; variant = ''; hits = []
+    seq = U.seq(op['u'], op['side']) if 'side' in op and 'u' in op else None
+    if seq is not None: variant = '/fixed' if seq._fixed_size else '/variable'
+    if o == 'unit.insert':
+        u = U.units[op['u']]; variant = '/variable-outs' if not u._outs_size_is_fixed else ('/explicit' if op.get('explicit') else '/fixed')
+        if op.get('mode') == 'v2':
+            kw, expect, X, I, added = insert_plan(U, op)
+            if op.get('foreign_in') is not None or op.get('foreign_out') is not None:
+                variant += '/given-stream'; hits.append('unit.insert:foreign-refused' if expect and 'must be this object' in expect else 'unit.insert:given-stream-accepted')
+            elif any(is_real(v) for v in kw.values()): variant += '/stream-objects'; hits.append('unit.insert:stream-objects')
+            if 'inlet' in kw and 'outlet' not in kw: variant += '/inlet-only'; hits.append('unit.insert:inlet-only')
+            if 'outlet' in kw and 'inlet' not in kw: variant += '/outlet-only'; hits.append('unit.insert:outlet-only')
+            if any(isinstance(v, int) and v < 0 for v in kw.values()): hits.append('neg-index:unit.insert')
+    if o == 'unit.disconnect':
+        variant = '/join' if op.get('join') else ('/partial' if op.get('inlets') is not None else '')
+        if op.get('mode') == 'v2':
+            kw, expect, chosen = disconnect_plan(U, op)
+            part = op.get('inlets') is not None or op.get('outlets') is not None
+            variant = ('/partial-join' if op.get('join') else '/partial') if part else ('/join' if op.get('join') else '')
+            if op.get('inlets') is not None and op.get('outlets') is None: variant += '/inlets-only'; hits.append('unit.disconnect:inlets-only')
+            if op.get('outlets') is not None and op.get('inlets') is None: variant += '/outlets-only'; hits.append('unit.disconnect:outlets-only')
+            given = kw.get('inlets', []) + kw.get('outlets', [])
+            if given: variant += '/indices' if all(isinstance(v, int) for v in given) else ('/streams' if not any(isinstance(v, int) for v in given) else '/indices+streams')
+            if part and op.get('join') and (chosen['inlets'] or chosen['outlets']): hits.append('unit.disconnect:partial-join')
+            if any(isinstance(v, int) and v < 0 for v in given): hits.append('neg-index:unit.disconnect')
+    if o == 'pipe-in':
+        minus = op.get('minus', True); mix = op.get('mix')
+        sp = 'mixed' if mix else ('s-i-u' if minus else '(s**i)**u')
+        hits.append('pipe-in:' + sp)
+        if sp != 's-i-u': variant += '/' + sp
+    if o == 'pipe-out':
+        pw = op.get('pow', True); mix = op.get('mix')
+        sp = 'mixed' if mix else ('u**i**s' if pw else 'u-(i-s)')
+        hits.append('pipe-out:' + sp)
+        if sp != 'u**i**s': variant += '/' + sp
+    if o in ('pipe-in', 'pipe-out') and op.get('idx_read') and op['s'][0] == 'p': hits.append('pipe:operand-by-index-read'); variant += '/operand-by-index-read'
+    if o == 'unit-unit' and op.get('pow'): hits.append('unit-unit:pow'); variant += '/pow'
+    if o == 'streams-unit' and op.get('form'):
+        variant += '/' + op['form']; hits.append(f"streams-unit:{op['form']}/{op['side']}")
+    if o == 'construct' and op.get('form'):
+        variant += '/' + op['form']
+        form = op['form']; cfg = op['cfg']
+        if form == 'over':
+            if (not cfg[2] and len(op['ins']) > cfg[0]) or (not cfg[3] and len(op['outs']) > cfg[1]): hits.append('construct:over-variable')
+        elif form == 'none-fixed':
+            if (cfg[2] and None in op['ins']) or (cfg[3] and None in op['outs']): hits.append('construct:none-in-fixed')
+        else: hits.append('construct:' + form)
+    if o == 'ports':
+        variant += f"/{op['side']}/{op['mode']}"
+        hits.append({'item': 'ports:item', 'slice': 'ports:slice', 'direct': 'ports:set_stream'}[op['mode']])
+        if op.get('sort'): hits.append('ports:sorted')
+    if o == 'slice':
+        if op.get('st') not in (None, 1): variant += '/step'; hits.append('slice:step')
+        if any(v is not None and v < 0 for v in (op['a'], op['b'])): variant += '/negative-bound'; hits.append('neg-index:slice')
+    if o in ('set', 'pop', 'insert', 'remove', 'replace', 'pipe-in', 'pipe-out') and op.get('i', 0) < 0:
+        variant += '/negative-index'; hits.append('neg-index:' + o)
+    if o == 'set' and op['i'] == len(seq) : hits.append('set:at-len')
+    if o == 'insert' and op['i'] > 0: hits.append('insert:at-i>0')
+    # placeholder objects handed to the operation (judged on the live state, not on the kind of reference)
+    phs = [x for x in (U.resolve(r) for r in operand_refs(op)) if is_ph(x)]
+    if phs and o != 'record':
+        variant += '/placeholder-operand'
+        hits += ['op:placeholder-operand', 'op:placeholder-operand/' + o]
+        own = U.units[op['u']] if 'u' in op else None
+        if own is not None and any((x._sink is not None and x._sink is not own) or (x._source is not None and x._source is not own) for x in phs):
+            hits.append('op:placeholder-operand/of-another-unit')
+    return variant, hits
+
+
 def run_sequence(U, ops, rec, clause, case):
     """executes ops on the live universe, checking after each; returns number of effective operations."""
     n_eff = 0
@@ -400,29 +849,37 @@ def run_sequence(U, ops, rec, clause, case):
         if not pre(U, op):
             continue
         o = op['op']
-        seq = U.seq(op['u'], op['side']) if 'side' in op and 'u' in op else None
-        variant = ''
-        if seq is not None: variant = '/fixed' if seq._fixed_size else '/variable'
-        if o == 'unit.insert':
-            u = U.units[op['u']]; variant = '/variable-outs' if not u._outs_size_is_fixed else ('/explicit' if op.get('explicit') else '/fixed')
-        if o == 'unit.disconnect': variant = '/join' if op.get('join') else ('/partial' if op.get('inlets') is not None else '')
+        variant, hits = describe(U, op)
         try:
             with warnings.catch_warnings():
                 warnings.simplefilter('ignore')
                 post = execute(U, op)
         except Exception as e:
-            rec.exception(f'{clause}', e, case=case, what=f'step {k} {op} raised {type(e).__name__}: {str(e)[:150]}')
+            rec.exception(f'{clause}', e, case=case, what=f'step {k} {op} ({o}{variant}) raised {type(e).__name__}: {str(e)[:150]}')
             rec.violations  # noqa
             return n_eff, False
+        if isinstance(post, Refused):
+            # documented refusal: counted, not judged.  The refused call may have run part of its assignments; the graph is looked at only to stop a
+            # history whose later steps could otherwise be blamed for a state the refused call left behind.
+            rec.refuse(post.reason)
+            for h in hits:
+                if h.endswith('-refused'): rec.hit(h)
+            if check(U):
+                rec.hit('refusal-left-inconsistent-graph')
+                return n_eff, False
+            continue
         n_eff += 1
         name = 'op:' + o
         rec.hit(name)
+        for h in hits: rec.hit(h)
         if o == 'set':
             s = U.resolve(op['s'])
         if o == 'unit.disconnect' and op.get('join'): rec.hit('op:unit.disconnect-join')
         if op.get('moves'): rec.hit('op:set-move')
         if op.get('placeholder'): rec.hit('op:placeholder')
         errs = check(U)
+        if U.temps: rec.hit('temp-conn:units-checked')
+        if U.evicted_auto: rec.hit('ever-seen:auto-created-stream-evicted')
         if post: errs = [post] + errs
         if errs:
             rec.violation(f'C18/{clause}/{o}{variant}', f'after step {k} {op}: {errs[:3]}', detail={'errors': errs[:8], 'step': k}, case=case)
@@ -436,7 +893,7 @@ def run_sequence(U, ops, rec, clause, case):
 EXH_CONFIGS = [(2, 1, True, True), (1, 2, True, False), (2, 2, False, True)]
 
 
-def enabled_ops(U):
+def enabled_ops(U, extras=True):
     ops = []
     nu = len(U.units); ns = len(U.streams)
     srefs = [('s', k) for k in range(ns)]
@@ -468,7 +925,75 @@ def enabled_ops(U):
     for r in srefs:
         ops.append({'op': 'disconnect_source', 's': r})
         ops.append({'op': 'disconnect_sink', 's': r})
+    if extras: ops += extra_ops(U)
     return [op for op in ops if pre(U, op)]
+
+
+SUB = [('s', 0), ('s', 1)]                    # the new shapes run over two of the five streams ...
+PA = ('p', 0, 'out', 0)                       # ... the outlet port of A (an auto-created stream at the start, possibly a placeholder later)
+PP = ('p', 0, 'in', 1)                        # ... and the second inlet port of A (a placeholder of A at the start)
+SLICE_BOUNDS = [(None, None), (0, 1), (1, None)]
+SLICE_LISTS = [[], [SUB[0]], [SUB[0], SUB[1]], [None, SUB[1]]]
+
+
+def extra_ops(U):
+    """op shapes the first alphabet lacks, over a deterministic sub-universe so that depth 2 stays cheap; 'x' names the shape for the reach counters."""
+    ops = []
+    nu = len(U.units)
+    for u in range(nu):
+        for side in ('in', 'out'):
+            seq = U.seq(u, side); n = len(seq)
+            pipe = 'pipe-in' if side == 'in' else 'pipe-out'
+            for i in range(n):
+                for r in (PA, PP):
+                    ops.append({'op': 'set', 'u': u, 'side': side, 'i': i, 's': r, 'x': 'port-ref-operand'})
+                for k, r in enumerate(SUB):
+                    ops.append({'op': 'replace', 'u': u, 'side': side, 'i': i, 's': r, 'x': 'replace'})
+                    alt = (i + k) % 2 == 1
+                    ops.append({'op': pipe, 'u': u, 'i': i, 's': r, 'minus': not alt, 'pow': not alt, 'x': pipe})
+            if n:
+                ops.append({'op': 'set', 'u': u, 'side': side, 'i': -1, 's': SUB[0], 'x': 'negative-index'})
+                ops.append({'op': 'pop', 'u': u, 'side': side, 'i': -1, 'x': 'negative-index'})
+                ops.append({'op': pipe, 'u': u, 'i': n - 1, 's': PA, 'idx_read': True, 'mix': True, 'x': pipe})
+            if not seq._fixed_size:
+                for r in SUB + [None]:
+                    ops.append({'op': 'set', 'u': u, 'side': side, 'i': n, 's': r, 'x': 'set-at-len'})
+                for i in sorted({1, n}):
+                    if 0 < i <= n: ops.append({'op': 'insert', 'u': u, 'side': side, 'i': i, 's': SUB[0], 'x': 'insert-at-i>0'})
+                ops.append({'op': 'insert', 'u': u, 'side': side, 'i': -1, 's': SUB[1], 'x': 'negative-index'})
+                ops.append({'op': 'extend', 'u': u, 'side': side, 'ss': [SUB[0]], 'x': 'extend'})
+                ops.append({'op': 'extend', 'u': u, 'side': side, 'ss': [SUB[1], SUB[0]], 'x': 'extend'})
+                for r in (PA, PP):
+                    ops.append({'op': 'append', 'u': u, 'side': side, 's': r, 'x': 'port-ref-operand'})
+            for a, b in SLICE_BOUNDS:
+                for ss in SLICE_LISTS:
+                    ops.append({'op': 'slice', 'u': u, 'side': side, 'a': a, 'b': b, 'ss': list(ss), 'x': 'slice'})
+            ops.append({'op': 'slice', 'u': u, 'side': side, 'a': -1, 'b': None, 'ss': [SUB[0]], 'x': 'slice'})
+            ops.append({'op': 'slice', 'u': u, 'side': side, 'a': 0, 'b': 1, 'ss': [PP], 'x': 'slice'})
+            ops.append({'op': 'streams-unit', 'u': u, 'side': side, 'ss': [SUB[0]], 'form': 'bare', 'x': 'streams-unit'})
+            ops.append({'op': 'streams-unit', 'u': u, 'side': side, 'ss': [SUB[0], SUB[1]], 'form': 'list', 'x': 'streams-unit'})
+            ops.append({'op': 'streams-unit', 'u': u, 'side': side, 'ss': [SUB[1], SUB[0]], 'form': 'ndarray', 'x': 'streams-unit'})
+            ops.append({'op': 'reverse', 'u': u, 'side': side, 'x': 'reverse'})
+        for inl, outl, obj, join in (([0], [], False, False), ([], [0], False, False), ([0], [0], True, True), ([-1], None, False, False), (None, [0], True, False), ([0], [0], False, True)):
+            ops.append({'op': 'unit.disconnect', 'mode': 'v2', 'u': u, 'inlets': inl, 'outlets': outl, 'as_streams': obj, 'join': join, 'x': 'unit.disconnect-partial'})
+        for r in [PA] + [('s', k) for k in range(len(U.streams))]:
+            ops.append({'op': 'unit.insert', 'u': u, 's': r, 'explicit': True, 'inlet': 0, 'outlet': 0, 'x': 'unit.insert-explicit'})
+        ops.append({'op': 'unit.insert', 'u': u, 's': PA, 'x': 'port-ref-operand'})
+        ops.append({'op': 'unit.insert', 'mode': 'v2', 'u': u, 's': PA, 'inlet': 0, 'outlet': None, 'obj_in': True, 'x': 'unit.insert-explicit'})
+        ops.append({'op': 'unit.insert', 'mode': 'v2', 'u': u, 's': PA, 'inlet': None, 'outlet': -1, 'obj_out': True, 'x': 'unit.insert-explicit'})
+        for v in range(nu):
+            if v != u:
+                ops.append({'op': 'temp-conn', 'u': u, 'v': v, 'x': 'temp-conn'})
+                ops.append({'op': 'unit-unit', 'u': u, 'v': v, 'pow': True, 'x': 'unit-unit-pow'})
+    if nu <= len(EXH_CONFIGS):      # at most one constructed unit per sequence
+        ops.append({'op': 'construct', 'cfg': (1, 1, True, True), 'ins': [SUB[0]], 'outs': [SUB[1]], 'x': 'construct'})
+        ops.append({'op': 'construct', 'cfg': (2, 1, False, True), 'ins': [PA], 'outs': [SUB[0]], 'form': 'single', 'x': 'construct'})
+        ops.append({'op': 'construct', 'cfg': (1, 2, True, False), 'ins': [], 'outs': [], 'form': 'auto', 'x': 'construct'})
+        ops.append({'op': 'construct', 'cfg': (2, 2, True, False), 'ins': [PA, SUB[0]], 'outs': [SUB[1], ('s', 2), ('s', 3)], 'form': 'mixed', 'tag': 0, 'x': 'construct'})
+    ops.append({'op': 'ports', 'side': 'out', 'of': [PA], 'mode': 'item', 'k': 0, 'ss': [SUB[0]], 'x': 'ports'})
+    ops.append({'op': 'ports', 'side': 'in', 'of': [SUB[0]], 'mode': 'direct', 'k': 0, 'ss': [SUB[1]], 'x': 'ports'})
+    ops.append({'op': 'ports', 'side': 'in', 'of': [SUB[0], SUB[1]], 'mode': 'slice', 'a': 0, 'b': 2, 'ss': [PA, None], 'sort': True, 'x': 'ports'})
+    return ops
 
 
 def fresh_universe():
@@ -497,11 +1022,19 @@ def exhaustive(rec, depth, shard, nshards):
             U = fresh_universe()
             case = {'t': 'exh', 'ops': seqops}
             rec.begin_case(case)
+            AbstractStream.registry.clear()
             n_eff, ok = run_sequence(U, seqops, rec, 'exhaustive', case)
             count += 1
-            if ok and U.seen_double or (ok and len(seqops) >= 2): rec.mark_nontrivial(case_hash(seqops))
+            if ok and n_eff == len(seqops):
+                for op in seqops:
+                    if 'x' in op: rec.hit('exh:' + op['x'])
+            deep_added = len(seqops) >= 3 and any('x' in op for op in seqops)
+            if deep_added: rec.hit('exh:depth>=3-after-added-shape')       # counted, not stored one by one (memory of the distinct-case set)
+            elif ok and U.seen_double or (ok and len(seqops) >= 2): rec.mark_nontrivial(case_hash(seqops))
             if ok and len(seqops) < depth:
-                for op in enabled_ops(U):
+                # beyond depth 2 the added shapes stay in the first two positions, and only a sequence whose later operations are of the first alphabet is extended
+                if len(seqops) >= 2 and any('x' in op for op in seqops[1:]): continue
+                for op in enabled_ops(U, extras=len(seqops) < 2):
                     stack.append(seqops + [op])
     rec.hit('exhaustive', count)
     return count
@@ -509,7 +1042,13 @@ def exhaustive(rec, depth, shard, nshards):
 # ---------------------------------------------------------------------------
 # random histories
 
-def gen_history(rng):
+BASE_WEIGHTS = [8, 8, 8, 4, 4, 3, 2, 3, 3, 3, 2, 2, 2, 2, 1, 2, 4, 2, 2, 1, 2, 2, 3, 3, 2, 2, 1, 2, 1]
+# directed histories (run in addition to the others): a line of units is wired first and the call forms that need one (unit.insert, partial/joined
+# unit.disconnect, system ports, temporary connections, record/reconnect) are drawn more often
+DIRECTED_WEIGHTS = [4, 4, 4, 3, 2, 2, 1, 2, 2, 2, 1, 1, 1, 1, 1, 10, 16, 2, 2, 2, 3, 3, 3, 3, 2, 2, 3, 8, 4]
+
+
+def gen_history(rng, directed=False):
     nu = rng.randrange(3, 9)
     configs = []
     for _ in range(nu):
@@ -521,53 +1060,118 @@ def gen_history(rng):
         r = rng.random()
         if r < 0.7: return ('s', rng.randrange(ns))
         return ('p', rng.randrange(n_units), rng.choice(['in', 'out']), rng.randrange(3))
+    def pref(side=None):
+        return ('p', rng.randrange(n_units), side or rng.choice(['in', 'out']), rng.randrange(3))
+    links = 0
+    if directed:
+        links = rng.randrange(1, min(ns, nu - 1) + 1)
+        for j in range(links):
+            ops.append({'op': 'set', 'u': j, 'side': 'out', 'i': 0, 's': ('s', j), 'moves': True, 'placeholder': False})
+            ops.append({'op': 'set', 'u': j + 1, 'side': 'in', 'i': 0, 's': ('s', j), 'moves': True, 'placeholder': False})
+    def lref():
+        """a stream of the wired line (directed histories) or any reference."""
+        if links and rng.random() < 0.7: return ('s', rng.randrange(links))
+        return pref() if rng.random() < 0.5 else sref()
+    weights = DIRECTED_WEIGHTS if directed else BASE_WEIGHTS
+    def index(n, p_neg=0.15):
+        """an index below n, now and then counted from the end."""
+        return rng.choice([-1, -1, -2]) if rng.random() < p_neg else rng.randrange(n)
     for _ in range(rng.randrange(5, 51)):
         o = rng.choices(['set', 'set', 'set', 'slice', 'append', 'insert', 'extend', 'pop', 'remove', 'replace', 'clear', 'empty', 'disconnect_source', 'disconnect_sink',
                          'disconnect', 'unit.disconnect', 'unit.insert', 'take_place_of', 'replace_with', 'replace_with_none', 'record', 'reconnect', 'pipe-in', 'pipe-out',
-                         'unit-unit', 'streams-unit', 'construct'],
-                        [8, 8, 8, 4, 4, 3, 2, 3, 3, 3, 2, 2, 2, 2, 1, 2, 4, 2, 2, 1, 2, 2, 3, 3, 2, 2, 1])[0]
+                         'unit-unit', 'streams-unit', 'construct', 'ports', 'temp-conn'],
+                        weights)[0]
         u = rng.randrange(n_units); side = rng.choice(['in', 'out'])
         if o == 'set':
             r = sref() if rng.random() < 0.9 else None
-            ops.append({'op': 'set', 'u': u, 'side': side, 'i': rng.randrange(4), 's': r, 'moves': True, 'placeholder': r is not None and r[0] == 'p'})
+            ops.append({'op': 'set', 'u': u, 'side': side, 'i': index(4, 0.1), 's': r, 'moves': True, 'placeholder': r is not None and r[0] == 'p'})
         elif o == 'slice':
             a = rng.choice([None, 0, 1]); b = rng.choice([None, 1, 2, 3])
-            ops.append({'op': 'slice', 'u': u, 'side': side, 'a': a, 'b': b, 'ss': [sref() if rng.random() < 0.85 else None for _ in range(rng.randrange(0, 4))]})
+            op = {'op': 'slice', 'u': u, 'side': side, 'a': a, 'b': b, 'ss': [sref() if rng.random() < 0.85 else None for _ in range(rng.randrange(0, 4))]}
+            r = rng.random()
+            if r < 0.15: op['a'] = rng.choice([-1, -2])
+            elif r < 0.3: op['b'] = rng.choice([-1, -2])
+            elif r < 0.4: op['st'] = rng.choice([2, -1, 1]); op['a'] = rng.choice([None, 0, 1, -1]); op['b'] = None
+            ops.append(op)
         elif o == 'append': ops.append({'op': 'append', 'u': u, 'side': side, 's': sref()})
-        elif o == 'insert': ops.append({'op': 'insert', 'u': u, 'side': side, 'i': rng.randrange(3), 's': sref()})
+        elif o == 'insert': ops.append({'op': 'insert', 'u': u, 'side': side, 'i': index(3), 's': sref()})
         elif o == 'extend': ops.append({'op': 'extend', 'u': u, 'side': side, 'ss': [sref() for _ in range(rng.randrange(1, 3))]})
-        elif o in ('pop', 'remove'): ops.append({'op': o, 'u': u, 'side': side, 'i': rng.randrange(3)})
-        elif o == 'replace': ops.append({'op': 'replace', 'u': u, 'side': side, 'i': rng.randrange(3), 's': sref()})
+        elif o in ('pop', 'remove'): ops.append({'op': o, 'u': u, 'side': side, 'i': index(3)})
+        elif o == 'replace': ops.append({'op': 'replace', 'u': u, 'side': side, 'i': index(3), 's': sref()})
         elif o in ('clear', 'empty'): ops.append({'op': o, 'u': u, 'side': side})
         elif o in ('disconnect_source', 'disconnect_sink', 'disconnect'):
             r = sref(); ops.append({'op': o, 's': r, 'placeholder': r[0] == 'p'})
         elif o == 'unit.disconnect':
             r = rng.random()
-            if r < 0.4: ops.append({'op': o, 'u': u})
-            elif r < 0.8: ops.append({'op': o, 'u': u, 'join': True})
-            else: ops.append({'op': o, 'u': u, 'inlets': [rng.randrange(2)] if rng.random() < 0.6 else [], 'outlets': [rng.randrange(2)] if rng.random() < 0.6 else [], 'as_streams': rng.random() < 0.5})
+            if r < 0.3: ops.append({'op': o, 'u': u})
+            elif r < 0.6: ops.append({'op': o, 'u': u, 'join': True})
+            elif r < 0.75: ops.append({'op': o, 'u': u, 'inlets': [rng.randrange(2)] if rng.random() < 0.6 else [], 'outlets': [rng.randrange(2)] if rng.random() < 0.6 else [], 'as_streams': rng.random() < 0.5})
+            else:
+                def some(k):
+                    r = rng.random()
+                    if r < 0.25: return None
+                    if r < 0.35: return []
+                    return rng.sample([0, 1, 2, -1], k=rng.randrange(1, 3))
+                join = rng.random() < 0.5
+                ops.append({'op': o, 'mode': 'v2', 'u': u, 'inlets': some(0), 'outlets': some(1), 'join': join,
+                            'as_streams': rng.random() < (0.95 if join else 0.5)})
         elif o == 'unit.insert':
-            if rng.random() < 0.3: ops.append({'op': o, 'u': u, 's': sref(), 'explicit': True, 'inlet': rng.randrange(2), 'outlet': rng.randrange(2)})
-            else: ops.append({'op': o, 'u': u, 's': sref()})
-        elif o in ('take_place_of', 'replace_with', 'unit-unit'): ops.append({'op': o, 'u': u, 'v': rng.randrange(n_units)})
+            r = rng.random()
+            if r < 0.2: ops.append({'op': o, 'u': u, 's': sref(), 'explicit': True, 'inlet': rng.randrange(2), 'outlet': rng.randrange(2)})
+            elif r < 0.5:
+                op = {'op': o, 'mode': 'v2', 'u': u, 's': lref(), 'inlet': rng.choice([None, 0, 1, -1]), 'outlet': rng.choice([None, 0, 1, -1]),
+                      'obj_in': rng.random() < 0.5, 'obj_out': rng.random() < 0.5}
+                if rng.random() < 0.12: op['foreign_in'] = sref()
+                if rng.random() < 0.12: op['foreign_out'] = sref()
+                ops.append(op)
+            else: ops.append({'op': o, 'u': u, 's': lref() if directed else sref()})
+        elif o in ('take_place_of', 'replace_with'): ops.append({'op': o, 'u': u, 'v': rng.randrange(n_units)})
+        elif o == 'unit-unit': ops.append({'op': o, 'u': u, 'v': rng.randrange(n_units), 'pow': rng.random() < 0.4})
         elif o == 'replace_with_none': ops.append({'op': o, 'u': u})
         elif o == 'record': ops.append({'op': 'record', 's': sref()})
         elif o == 'reconnect': ops.append({'op': 'reconnect', 'k': rng.randrange(4)})
-        elif o == 'pipe-in': ops.append({'op': 'pipe-in', 'u': u, 'i': rng.randrange(3), 's': sref(), 'minus': rng.random() < 0.5})
-        elif o == 'pipe-out': ops.append({'op': 'pipe-out', 'u': u, 'i': rng.randrange(3), 's': sref(), 'pow': rng.random() < 0.5})
-        elif o == 'streams-unit': ops.append({'op': o, 'u': u, 'side': side, 'ss': [sref() for _ in range(rng.randrange(1, 3))]})
+        elif o == 'pipe-in': ops.append({'op': 'pipe-in', 'u': u, 'i': index(3, 0.1), 's': sref(), 'minus': rng.random() < 0.5, 'mix': rng.random() < 0.25, 'idx_read': rng.random() < 0.5})
+        elif o == 'pipe-out': ops.append({'op': 'pipe-out', 'u': u, 'i': index(3, 0.1), 's': sref(), 'pow': rng.random() < 0.5, 'mix': rng.random() < 0.25, 'idx_read': rng.random() < 0.5})
+        elif o == 'streams-unit':
+            form = rng.choice([None, None, 'tuple', 'bare', 'bare', 'list', 'list', 'ndarray'])
+            op = {'op': o, 'u': u, 'side': side, 'ss': [sref() for _ in range(1 if form == 'bare' else rng.randrange(1, 3))]}
+            if form: op['form'] = form
+            ops.append(op)
         elif o == 'construct':
             cfg = (rng.randrange(1, 3), rng.randrange(1, 3), rng.random() < 0.5, rng.random() < 0.5)
-            ops.append({'op': o, 'cfg': list(cfg), 'ins': [sref() for _ in range(rng.randrange(0, cfg[0] + 1))], 'outs': [sref() for _ in range(rng.randrange(0, cfg[1] + 1))]})
+            form = rng.choice([None, None, 'single', 'str', 'strs', 'auto', 'mixed', 'over', 'none-fixed'])
+            if form == 'over':
+                op = {'op': o, 'cfg': list(cfg), 'ins': [sref() for _ in range(cfg[0] + rng.randrange(0, 3))], 'outs': [sref() for _ in range(cfg[1] + rng.randrange(0, 3))]}
+            elif form == 'none-fixed':
+                op = {'op': o, 'cfg': list(cfg), 'ins': [sref() if rng.random() < 0.6 else None for _ in range(rng.randrange(0, cfg[0] + 1))],
+                      'outs': [sref() if rng.random() < 0.6 else None for _ in range(rng.randrange(0, cfg[1] + 1))]}
+            else:
+                op = {'op': o, 'cfg': list(cfg), 'ins': [sref() for _ in range(rng.randrange(0, cfg[0] + 1))], 'outs': [sref() for _ in range(rng.randrange(0, cfg[1] + 1))]}
+            if form: op['form'] = form; op['tag'] = len(ops)
+            ops.append(op)
             n_units += 1
-    return {'t': 'hist', 'configs': [list(c) for c in configs], 'ns': ns, 'ops': ops}
+        elif o == 'ports':
+            mode = rng.choice(['item', 'slice', 'direct'])
+            op = {'op': o, 'side': side, 'of': [pref(side) if rng.random() < 0.75 else sref() for _ in range(rng.randrange(1, 4))], 'mode': mode, 'sort': rng.random() < 0.3}
+            if mode == 'slice':
+                op['a'] = rng.choice([None, 0, 1]); op['b'] = rng.choice([None, 1, 2, -1])
+                op['ss'] = [sref() if rng.random() < 0.85 else None for _ in range(rng.randrange(0, 3))]
+            else:
+                op['k'] = index(3); op['ss'] = [sref() if rng.random() < 0.9 else None]
+            ops.append(op)
+        elif o == 'temp-conn': ops.append({'op': o, 'u': u, 'v': rng.randrange(n_units)})
+    if rng.random() < 0.04:       # last, because on this tree the call cannot be followed by anything (see the recorded defect)
+        ops.append({'op': 'reverse', 'u': rng.randrange(n_units), 'side': rng.choice(['in', 'out'])})
+    case = {'t': 'hist', 'configs': [list(c) for c in configs], 'ns': ns, 'ops': ops}
+    if directed: case['directed'] = True
+    return case
 
 
 def norm(op):
     op = dict(op)
-    for k in ('s',):
+    for k in REF_KEYS_1:
         if k in op and isinstance(op[k], list): op[k] = tuple(op[k])
-    for k in ('ss', 'ins', 'outs'):
+    for k in REF_KEYS_N:
         if k in op: op[k] = [tuple(r) if isinstance(r, list) else r for r in op[k]]
     if 'cfg' in op: op['cfg'] = tuple(op['cfg'])
     return op
@@ -575,6 +1179,7 @@ def norm(op):
 
 def run_history(case, rec):
     rec.begin_case(case)
+    AbstractStream.registry.clear()           # construction from string IDs registers the new streams: every case starts from an empty registry
     U = Universe([tuple(c) for c in case['configs']], case['ns'])
     ops = [norm(o) for o in case['ops']]
     n_eff, ok = run_sequence(U, ops, rec, 'history', case)
@@ -584,6 +1189,7 @@ def run_history(case, rec):
 def replay(case, rec):
     tmo.settings.set_thermo(['Water'], cache=True)
     if case['t'] == 'exh':
+        AbstractStream.registry.clear()
         U = fresh_universe(); rec.begin_case(case)
         run_sequence(U, [norm(o) for o in case['ops']], rec, 'exhaustive', case)
     else:
@@ -596,7 +1202,9 @@ def run(rec, rng, tier, shard, nshards):
     depth = 2 if quick else 3
     n = exhaustive(rec, depth, shard, nshards)
     rec.notes['exhaustive'] = False
-    rec.notes['exhaustive_subspace'] = f'all operation sequences of the bounded universe up to depth {depth} are executed (first-level operations partitioned over the shards)'
+    rec.notes['exhaustive_subspace'] = (f'all operation sequences of the bounded universe up to depth {depth} are executed (first-level operations partitioned over the shards); '
+                                        'the added op shapes take part in the first two positions (every sequence up to length 2 over the whole alphabet; longer ones continue with the first alphabet '
+                                        'after a first operation of either kind)')
     nh = 3000 if quick else 60000
     for i in range(nh):
         case = gen_history(rng)
@@ -605,3 +1213,10 @@ def run(rec, rng, tier, shard, nshards):
         except Exception as e:
             rec.exception('harness', e, what=f'harness error: {type(e).__name__}: {e}')
         if i % 501 == 0: rec.sample({'t': 'hist', 'configs': case['configs'], 'ns': case['ns'], 'ops': case['ops'][:8], 'n_ops': len(case['ops'])})
+    for i in range(nh // 5):
+        case = gen_history(rng, directed=True)
+        try:
+            run_history(case, rec)
+            rec.hit('directed-histories')
+        except Exception as e:
+            rec.exception('harness', e, what=f'harness error: {type(e).__name__}: {e}')
